@@ -76,6 +76,13 @@ type PDM struct{ rbase } // 14 RI Primary Mark()
 // field-less components: every zero-size allocation has the same address in Go
 type PZ1 struct{ sealedImpl } // 15 RI
 type PZ2 struct{ sealedImpl } // 16 RI Mark()
+type PZP struct{ sealedImpl } // 17 RI Primary, field-less
+type PZQ struct{ sealedImpl } // 18 RI Q (the constant qualifier "g1"), field-less
+
+func (*PZP) RIm()              {}
+func (*PZP) Primary()          {}
+func (*PZQ) RIm()              {}
+func (*PZQ) Qualifier() string { return "g1" }
 
 func (*PZ1) RIm()  {}
 func (*PZ2) RIm()  {}
@@ -197,6 +204,12 @@ func mkProv(ty, id int, name, qual string) any {
 	case 16:
 		zeroPID["PZ2"] = id
 		return &PZ2{}
+	case 17:
+		zeroPID["PZP"] = id
+		return &PZP{}
+	case 18:
+		zeroPID["PZQ"] = id
+		return &PZQ{}
 	}
 	panic("unknown pool type")
 }
@@ -492,6 +505,10 @@ func pidOf(x any) int {
 		return zeroPID["PZ1"]
 	case *PZ2:
 		return zeroPID["PZ2"]
+	case *PZP:
+		return zeroPID["PZP"]
+	case *PZQ:
+		return zeroPID["PZQ"]
 	}
 	if p, ok := x.(pider); ok {
 		return p.PID()
